@@ -154,6 +154,7 @@ typedef struct { pixman_image_t *img; uint32_t *buf; int stride; size_t size; } 
 static uint32_t pat(int which, uint64_t i)
 {
     static const uint8_t bb[16] = { 0x00, 0xff, 0x80, 0x7f, 0x01, 0xfe, 0x40, 0xc0, 0xff, 0x00, 0x81, 0x3f, 0xbf, 0x02, 0xff, 0x10 };
+    if (which == 0 && (i % 7 == 2 || i % 7 == 3)) return 0;       /* runs of eight zero bytes (a8) / two transparent pixels (32 bpp): the SIMD loops skip whole blocks of zero mask or source */
     if (which == 0) return (uint32_t)bb[i & 15] << 24 | (uint32_t)bb[(i * 5 + 3) & 15] << 16 | (uint32_t)bb[(i * 3 + 7) & 15] << 8 | bb[(i * 7 + 1) & 15];
     uint64_t z = (i + 1) * 0x9e3779b97f4a7c15ULL; z ^= z >> 29; z *= 0xbf58476d1ce4e5b9ULL; z ^= z >> 32;
     return (uint32_t)z;
@@ -218,8 +219,8 @@ static void run_geometries(int op, int si, int mi, int di, int full, const pixma
     } else if (full == 1) {
         for (int wi = 0; wi < nW; wi += 2) for (int dx = 0; dx < 8; dx += 3) { G[ng].w = W[wi]; G[ng].h = 2; G[ng].dx = dx; G[ng].sx = dx == 3 ? 1 : 0; G[ng].mx = dx == 6 ? 3 : 0; ng++; }
     } else {
-        static const int ws[] = { 1, 7, 16, 33 };
-        for (int wi = 0; wi < 4; wi++) for (int dx = 0; dx < 4; dx += 3) { G[ng].w = ws[wi]; G[ng].h = 1 + (wi & 1); G[ng].dx = dx; G[ng].sx = wi & 1; G[ng].mx = (wi >> 1) & 1; ng++; }
+        static const int ws[] = { 1, 7, 16, 33, 70 };
+        for (int wi = 0; wi < 5; wi++) for (int dx = 0; dx < 4; dx += 3) { G[ng].w = ws[wi]; G[ng].h = 1 + (wi & 1); G[ng].dx = dx; G[ng].sx = wi & 1; G[ng].mx = (wi >> 1) & 1; ng++; }
     }
     char desc[256], cfgn[64];
     for (int variant = 0; variant < 2; variant++) {       /* stride / pattern variant */
